@@ -106,6 +106,22 @@ def run(res, tier, rng):
             sp = spec(ops, qs, stems_of)
             if len(ops) >= 2:
                 nontriv.add(repr(ops))
+            if io == sp and len(ops) >= 2:
+                # the same history on ONE trie that is queried before the first and after every operation
+                t2 = LRUTrie(suffix_aware=sa)
+                for i in range(len(ops) + 1):
+                    if i:
+                        k, x, v = ops[i - 1]
+                        (t2.set if k == "set" else t2.set_lru)(x, v)
+                    io_i = dict(len=len(t2), values=sorted(map(repr, list(t2))),
+                                match=[call(t2.match, x) if k == "match" else call(t2.match_lru, x) for k, x in qs])
+                    sp_i = spec(ops[:i], qs, stems_of)
+                    if io_i != sp_i:
+                        bad = [f for f in sp_i if io_i[f] != sp_i[f]]
+                        res.violation("property", "LRUTrie queried between its operations is not the longest-prefix dictionary of the operations so far on: " + ",".join(bad),
+                                      input=dict(ops=ops[:i], suffix_aware=sa, queried_after_each_operation=True, queries=[q for q, a, b in zip(qs, io_i["match"], sp_i["match"]) if a != b][:4]),
+                                      impl={f: io_i[f] for f in bad}, expected={f: sp_i[f] for f in bad})
+                        break
             if io != sp:
                 bad = [f for f in sp if io[f] != sp[f]]
                 res.violation("property", "LRUTrie is not the longest-prefix dictionary of its history on: " + ",".join(bad),
@@ -163,7 +179,7 @@ def run(res, tier, rng):
     res.nontrivial = nontriv
     res.rule = ("URL universe 2 schemes x 2 ports x 3 host chains x 8 path chains (empty segments, '|') x 3 queries x fragment; every set-sequence of length <= %d over 14 of them, then seeded random sequences of set / "
                 "set_lru (serialized and list form) with values incl. None; match on urls, match_lru on serialized and list LRUs; len and iteration; implementation vs dictionary oracle vs "
-                "extracted model; x suffix_aware; variant tries: every pair of 17 spellings, and every C02 / C04 variant of seeded structured bases, with equal canonical / normalized / fingerprinted form must hit. "
+                "extracted model; every history replayed on one trie observed before the first and after every operation; x suffix_aware; variant tries: every pair of 17 spellings, and every C02 / C04 variant of seeded structured bases, with equal canonical / normalized / fingerprinted form must hit. "
                 "Non-trivial = histories with >= 2 operations, and colliding spelling pairs." % depth)
     res.sample(dict(ops=cases[30]))
     res.theorems = THEOREMS
